@@ -340,7 +340,8 @@ func (u *User) fire(ev *UserEvent) {
 		if webhookDown(u.setVersion(1)) {
 			return
 		}
-	case "release-v3", "release-v3-early":
+	case "release-v3", "release-v3-early", "release-v3-late":
+		// -late: a second release after the first one is over (whatever the first one left behind meets the next)
 		u.Disturbed = true
 		u.Early = u.Early || ev.Kind == "release-v3-early"
 		if webhookDown(u.setVersion(3)) {
